@@ -4,7 +4,41 @@ Everything here reads raw table rows (python lists) -- never through the SQL eva
 cancel itself out.  `Oracles.on_commit(sess, journal)` is called by the engine after every committed transaction:
 the database then holds exactly the committed state (transactions are serial).
 """
+import os
+import sys
+
 from simkit.core import Violation
+
+# debugging aid: VERIF_DBTRACE="attempts,instances:substring" prints the committed row changes of those tables whose
+# row text contains the substring (stderr; never touches the event log or the choice streams)
+_DBTRACE = os.environ.get('VERIF_DBTRACE')
+
+
+def _dbtrace(orc, sess, journal):
+    spec, _, needle = _DBTRACE.partition(':')
+    tables = set(spec.split(','))
+    shown = False
+    for op, table, _rid, old, new in journal:
+        if table.lname in tables and (not needle or needle in f'{old} {new}') and not shown:
+            shown = True
+            for q, a in getattr(sess, 'trace', []):
+                print(f'[dbtrace commit#{orc.n_commits}]   SQL {q} {str(a)[:200]}', file=sys.stderr)
+        if table.lname not in tables:
+            continue
+        cols = list(table.colidx)
+        txt = f'{old} {new}'
+        if needle and needle not in txt:
+            continue
+
+        def d(row):
+            return None if row is None else {c: row[i] for c, i in table.colidx.items() if row[i] is not None}
+        if op == 'upd' and old is not None and new is not None:
+            ch = {c: (old[i], new[i]) for c, i in table.colidx.items() if old[i] != new[i]}
+            key = {c: new[table.colidx[c]] for c in cols[:3]}
+            print(f'[dbtrace t={orc.ctx.loop.time():.4f} commit#{orc.n_commits}] {op} {table.lname} {key} {ch}', file=sys.stderr)
+        else:
+            print(f'[dbtrace t={orc.ctx.loop.time():.4f} commit#{orc.n_commits}] {op} {table.lname} {d(old)} -> {d(new)}', file=sys.stderr)
+
 
 TERMINAL = ('Success', 'Failed', 'Error', 'Cancelled')
 LIVE = ('Ready', 'Creating', 'Running')
@@ -123,6 +157,8 @@ class Oracles:
         if not self.enabled:
             return
         self.n_commits += 1
+        if _DBTRACE:
+            _dbtrace(self, sess, journal)
         try:
             self._monitors(journal)
             self._invariants(journal)
@@ -272,8 +308,15 @@ class Oracles:
             elif new[st] > old[st]:
                 self.fail('C03', 'start_time', 'C03/start_time_moved_later', f'attempt {key}: {old[st]} -> {new[st]}')
         if old[rs] is not None:
-            if new[rs] != old[rs]:
-                self.fail('C03', 'end_reason', 'C03/reason_replaced', f'attempt {key}: {old[rs]} -> {new[rs]}')
+            end_earlier = new[et] is not None and old[et] is not None and new[et] < old[et]
+            if new[rs] != old[rs] and not end_earlier:
+                # a report with a strictly earlier end replaces end time *and* the reason that comes with it (by
+                # design of attempts_before_update; the property only constrains the direction of the end time);
+                # any other change of an existing reason is a violation
+                self.fail('C03', 'end_reason', 'C03/reason_replaced', f'attempt {key}: {old[rs]} -> {new[rs]} '
+                          f'(end {old[et]} -> {new[et]})')
+            elif new[rs] != old[rs]:
+                self.ctx.probe('reason_replaced_with_earlier_end')
             if (old[et] is None) != (new[et] is None) or (new[et] is not None and new[et] > old[et]):
                 self.fail('C03', 'end_reason', 'C03/end_moved_later_after_reason', f'attempt {key}: {old[et]} -> {new[et]}')
             if new[et] is not None and old[et] is not None and new[et] < old[et]:
@@ -472,11 +515,13 @@ class Oracles:
         if 'attempts' in touched or 'instances' in touched or 'instances_free_cores_mcpu' in touched:
             A = self.attempts
             open_cores = {}
+            ended_cores = {}
             for r in A.rows():
-                if r[A.col('end_time')] is None and r[A.col('instance_name')] is not None:
+                if r[A.col('instance_name')] is not None:
                     jr = jobs_by_key.get((r[A.col('batch_id')], r[A.col('job_id')]))
                     if jr is not None:
-                        open_cores[r[A.col('instance_name')]] = open_cores.get(r[A.col('instance_name')], 0) + jr[jco]
+                        tgt = open_cores if r[A.col('end_time')] is None else ended_cores
+                        tgt[r[A.col('instance_name')]] = tgt.get(r[A.col('instance_name')], 0) + jr[jco]
             I = self.inst
             F = self.ifree
             free = {r[F.col('name')]: r[F.col('free_cores_mcpu')] for r in F.rows()}
@@ -487,7 +532,12 @@ class Oracles:
                     continue
                 if st in ('pending', 'active'):
                     e_ = cores - open_cores.get(nm, 0)
-                    if f != e_:
+                    if f != e_ and st == 'pending' and f == e_ - ended_cores.get(nm, 0):
+                        # exactly the cores of attempts that already ENDED on a still-pending instance are missing
+                        self.fail('C10', 'free_cores', 'C10/cores_of_ended_attempt_not_freed_on_pending_instance',
+                                  f'instance {nm} (pending): free {f}, total {cores}, open attempts '
+                                  f'{open_cores.get(nm, 0)}, ended attempts {ended_cores.get(nm, 0)} still deducted')
+                    elif f != e_:
                         self.fail('C10', 'free_cores', f'C10/free_cores_mismatch/{st}',
                                   f'instance {nm} ({st}): free {f} != {cores} - open attempts {open_cores.get(nm, 0)}')
                 elif f != cores:
